@@ -54,6 +54,7 @@ class Fn:
         self.node = node
         self.name = node.name
         self.calls = set()        # quals
+        self.sites = []           # (targets, discarded: the call is a bare expression statement)
         self.effects = []         # (kind, detail)
         self.unknown = []         # reasons
 
@@ -216,13 +217,13 @@ class Graph:
         for f in self.fns.values():
             imports = self.mod_imports[f.module]
             self._locals = self.local_callables(f, imports)
+            discarded = {id(n.value) for n in ast.walk(f.node) if isinstance(n, ast.Expr) and isinstance(n.value, ast.Call)}
             for node in ast.walk(f.node):
                 if isinstance(node, ast.Call):
+                    saved, f.calls = f.calls, set()
                     self.resolve_call(f, node, imports)
-                elif isinstance(node, (ast.For, ast.comprehension)):
-                    pass
-                elif isinstance(node, ast.With):
-                    pass
+                    targets, f.calls = f.calls, saved | f.calls
+                    f.sites.append((targets, id(node) in discarded))
             # decorators may wrap the function in a package class/function
             for d in getattr(f.node, "decorator_list", []):
                 name = d.id if isinstance(d, ast.Name) else (d.func.id if isinstance(d, ast.Call) and isinstance(d.func, ast.Name) else None)
